@@ -607,7 +607,7 @@ def h_utm(request, n_cand):
 
 
 RES_Q = [["10", "-10"], ["-1/4", "1/3"]]
-RES_T = RES_Q + [["30", "30"], ["1/3600", "-1/3600"], ["-100/3", "-7"]]
+RES_T = RES_Q + [["30", "30"], ["1/3600", "-1/3600"], ["100", "-100"]]
 
 
 def _own_params(tier, rng):
